@@ -150,10 +150,59 @@ func (t *Table) removeColumn(colName string) {
 		t.columnIndexes[colName] = len(t.Columns) - 1
 
 	case t.Columns[id].Action == MigrateAddAction:
-		t.Columns[id].Action = MigrateNoAction
+		// created and dropped within the same history: forget the column, as the database does, together with
+		// its place in indexes (an index left without columns disappears) and the foreign keys on it
+		t.Columns = append(t.Columns[:id], t.Columns[id+1:]...)
+		delete(t.columnIndexes, colName)
+		for k, v := range t.columnIndexes {
+			if v > id {
+				t.columnIndexes[k] = v - 1
+			}
+		}
+
+		for i := len(t.Indexes) - 1; i >= 0; i-- {
+			cols := make([]string, 0, len(t.Indexes[i].Columns))
+			for _, c := range t.Indexes[i].Columns {
+				if c != colName {
+					cols = append(cols, c)
+				}
+			}
+
+			if len(cols) == 0 && len(t.Indexes[i].Columns) > 0 {
+				t.forgetIndex(i)
+			} else {
+				t.Indexes[i].Columns = cols
+			}
+		}
+
+		for i := len(t.ForeignKeys) - 1; i >= 0; i-- {
+			if t.ForeignKeys[i].Column == colName {
+				t.forgetForeignKey(i)
+			}
+		}
 
 	default:
 		t.Columns[id].Action = MigrateRemoveAction
+	}
+}
+
+func (t *Table) forgetIndex(id int) {
+	delete(t.indexIndexes, t.Indexes[id].Name)
+	t.Indexes = append(t.Indexes[:id], t.Indexes[id+1:]...)
+	for k, v := range t.indexIndexes {
+		if v > id {
+			t.indexIndexes[k] = v - 1
+		}
+	}
+}
+
+func (t *Table) forgetForeignKey(id int) {
+	delete(t.indexForeignKeys, t.ForeignKeys[id].Name)
+	t.ForeignKeys = append(t.ForeignKeys[:id], t.ForeignKeys[id+1:]...)
+	for k, v := range t.indexForeignKeys {
+		if v > id {
+			t.indexForeignKeys[k] = v - 1
+		}
 	}
 }
 
@@ -191,7 +240,8 @@ func (t *Table) RemoveIndex(idxName string) {
 	}
 
 	if t.Indexes[id].Action == MigrateAddAction {
-		t.Indexes[id].Action = MigrateNoAction
+		// created and dropped within the same history
+		t.forgetIndex(id)
 	} else {
 		t.Indexes[id].Action = MigrateRemoveAction
 	}
@@ -238,7 +288,8 @@ func (t *Table) RemoveForeignKey(fkName string) {
 	}
 
 	if t.ForeignKeys[id].Action == MigrateAddAction {
-		t.ForeignKeys[id].Action = MigrateNoAction
+		// created and dropped within the same history
+		t.forgetForeignKey(id)
 	} else {
 		t.ForeignKeys[id].Action = MigrateRemoveAction
 	}
